@@ -36,7 +36,9 @@ F = ['sdc11073.mdib.providermdib.ProviderMdib._transaction_manager',
 STATE_KINDS = ['metric', 'two_metrics_two_mds', 'alert', 'component', 'operational', 'context_new', 'context_update',
                'context_update_two_of_one_descriptor', 'set_location', 'waveform']
 DESCR_KINDS = ['update_alert_condition_source', 'update_alert_signal_condition_signaled', 'update_metric_descriptor_and_state',
-               'create_metric', 'delete_leaf', 'delete_subtree', 'update_context_descriptor', 'create_channel_with_child']
+               'create_metric', 'delete_leaf', 'delete_subtree', 'update_context_descriptor', 'create_channel_with_child',
+               'create_two_children_of_one_parent', 'update_parent_then_create_child', 'delete_two_children_of_one_parent',
+               'create_child_then_update_parent']
 SYM = 'symbolic: DescriptorVersion, StateVersion, MdibVersion, context StateVersion in N (unconstrained); str payload <= 3 chars; '
 
 
@@ -58,11 +60,18 @@ def obligations(tier):
                       stubs=STUBS, bounds='symbolic dv, sv, mv in N, str <= 2; 2 consecutive transactions (delete/update/create then '
                       're-create/delete/update), mirror compared after each',
                       claim='mirror after every prefix of a 2-transaction history incl. delete -> re-create with greater versions'))
+    from checks.C06 import E3_STUBS
+    obs.append(Ob('C01.e3.reload_vs_report', 'checks.C06', 'ob_reload_race', kind='py', timeout=240, params={'reports': 1},
+                  functions=['sdc11073.mdib.consumermdib.ConsumerMdib.reload_all',
+                             'sdc11073.mdib.consumermdib.ConsumerMdib._pre_check_report_ok'], stubs=E3_STUBS,
+                  bounds='1 reload_all (initial load) thread x 1 report thread; all interleavings of the recorded lock / _state / buffer '
+                         'events consistent with the recorded _state values (engine E3, shared with C06)',
+                  claim='a report delivered while the consumer initialises is never lost (it is buffered and replayed, or applied)'))
     return obs
 
 
 MANIFEST_ENTRY = {
-    'engine': 'crosshair',
+    'engine': 'crosshair+sched',
     'technique': 'bounded symbolic execution (CrossHair/z3) of the real provider transaction + report + consumer update path with '
                  'symbolic version counters and payloads; snapshot-equality and index-vs-scan oracle',
     'text': 'For each of 17 transaction kinds (and 2-transaction sequences) every path of the real provider->report->consumer code is '
